@@ -80,6 +80,20 @@ def eval_own(c, rec):
             blobs.append(('signature-grown', bytes(sig)))
             if t.carrier_blob is not None and isinstance(t.carrier_blob, bytes):
                 blobs.append(('signed-message', t.carrier_blob))
+            # values that do not fit their fixed-width fields (a 150-year expiry, a date after 2106, a trust level above 255): the call may
+            # refuse them, but whatever it emits must be a packet that parses back
+            import datetime
+            for nm, extra, cr in (('expiry-150y', {'expires': datetime.timedelta(days=365 * 150)}, cc['created']),
+                                  ('created-2110', {}, 4418064000),
+                                  ('trust-300', {'trust': (300, 120)} if cc['label'].startswith('cert') else None, cc['created'])):
+                if extra is None:
+                    continue
+                try:
+                    t2 = sigkit.make_triple(cc['label'], cc['kid'], cc['halg'], doc=bytes.fromhex(cc['doc']), opts=dict(po, **extra), created=cr, uid=cc['uid'])
+                    blobs.append(('signature-with-' + nm, wire.build_packet(2, t2.sig)))
+                    rec.note('overflow-value-emitted/' + nm)
+                except Exception:   # noqa
+                    rec.note('overflow-value-refused/' + nm)
         elif kind == 'key':
             key, model = keykit.build_pgpy(c['recipe'])
             blobs.append(('private-key', bytes(key)))
